@@ -740,3 +740,87 @@ Proof.
   pose proof (conservation id (ops ++ [Tick]) (uinit pol rev0) (inv_init pol rev0)) as H.
   cbn zeta in H. fold r in H. rewrite Hb in H. cbn in H. now rewrite app_nil_r in H.
 Qed.
+
+
+(* ---------- C20: sent-storage failures ---------- *)
+
+Lemma urun_sf_cons F s o ops :
+  let r := ustep s o in let rest := urun_sf F (fst (fst r)) ops in
+  r_outs (urun_sf F s (o :: ops)) = sf_outs F (snd (fst r)) ++ r_outs rest /\
+  r_rets (urun_sf F s (o :: ops)) = sf_ret F o (snd (fst r)) (snd r) :: r_rets rest /\
+  r_snaps (urun_sf F s (o :: ops)) = snap (fst (fst r)) :: r_snaps rest /\
+  r_state (urun_sf F s (o :: ops)) = r_state rest.
+Proof. cbn. repeat split. Qed.
+
+(* a failing Store changes neither the state nor any State() snapshot *)
+Lemma urun_sf_state F ops : forall s,
+  r_state (urun_sf F s ops) = r_state (urun s ops) /\ r_snaps (urun_sf F s ops) = r_snaps (urun s ops).
+Proof.
+  induction ops as [|o ops IH]; intros s; [split; reflexivity|].
+  destruct (urun_sf_cons F s o ops) as (_ & _ & -> & ->).
+  destruct (urun_cons s o ops) as (_ & _ & -> & ->).
+  destruct (IH (fst (fst (ustep s o)))) as (-> & ->). split; reflexivity.
+Qed.
+
+(* ... nor which writes were accepted *)
+Lemma sf_accepted F ops : forall s,
+  accepted_count ops (r_rets (urun_sf F s ops)) = accepted_count ops (r_rets (urun s ops)) /\
+  forall id, accepted_pts id ops (r_rets (urun_sf F s ops)) = accepted_pts id ops (r_rets (urun s ops)).
+Proof.
+  induction ops as [|o ops IH]; intros s; [split; reflexivity|].
+  destruct (urun_sf_cons F s o ops) as (_ & -> & _ & _).
+  destruct (urun_cons s o ops) as (_ & -> & _ & _).
+  destruct (IH (fst (fst (ustep s o)))) as (Hc & Hp).
+  split.
+  - rewrite !accepted_count_cons, Hc. destruct o; reflexivity.
+  - intros id. rewrite !accepted_pts_cons, Hp. destruct o; reflexivity.
+Qed.
+
+Lemma filter_all A (f : A -> bool) l : (forall x, f x = true) -> filter f l = l.
+Proof. intros H. induction l as [|x l IH]; [reflexivity|]. cbn [filter]. rewrite H. now f_equal. Qed.
+Lemma existsb_none A (f : A -> bool) l : (forall x, f x = false) -> existsb f l = false.
+Proof. intros H. induction l as [|x l IH]; [reflexivity|]. cbn [existsb]. now rewrite H. Qed.
+Lemma sf_outs_nil outs : sf_outs [] outs = outs.
+Proof. apply filter_all. intros [ | | | ]; reflexivity. Qed.
+Lemma sf_lost_nil outs : sf_lost [] outs = false.
+Proof. apply existsb_none. intros [ | | | ]; reflexivity. Qed.
+
+(* no failing Store: the plain model *)
+Lemma urun_sf_nil ops : forall s, urun_sf [] s ops = urun s ops.
+Proof.
+  induction ops as [|o ops IH]; intros s; [reflexivity|]. cbn [urun_sf urun]. rewrite IH, sf_outs_nil.
+  unfold sf_ret. rewrite sf_lost_nil. destruct o; reflexivity.
+Qed.
+
+(* sent + buffered = accepted whatever Store does: a lost chunk is reported as sent *)
+Lemma state_conservation_sf F pol rev0 ops :
+  let r := urun_sf F (uinit pol rev0) ops in
+  u_total (r_state r) + buf_count (u_buf (r_state r)) = accepted_count ops (r_rets r).
+Proof.
+  cbn zeta. destruct (urun_sf_state F ops (uinit pol rev0)) as (-> & _).
+  destruct (sf_accepted F ops (uinit pol rev0)) as (-> & _).
+  pose proof (state_conservation ops (uinit pol rev0) (inv_init pol rev0)) as H. cbn zeta in H. exact H.
+Qed.
+
+(* transmitted chunks are a sub-multiset: what reaches the wire under failures is what the plain
+   model transmits minus the chunks whose Store failed *)
+Lemma sf_outs_app F a b : sf_outs F (a ++ b) = sf_outs F a ++ sf_outs F b.
+Proof. unfold sf_outs. apply filter_app. Qed.
+Lemma urun_sf_outs F ops : forall s, r_outs (urun_sf F s ops) = sf_outs F (r_outs (urun s ops)).
+Proof.
+  induction ops as [|o ops IH]; intros s; [reflexivity|].
+  destruct (urun_sf_cons F s o ops) as (-> & _). destruct (urun_cons s o ops) as (-> & _).
+  now rewrite sf_outs_app, IH.
+Qed.
+
+(* FINDING (code as it is): the chunk of a cut whose Store failed is dropped silently when the cut
+   was made by the flush loop (size trigger or tick): a later Flush returns nil with an empty
+   buffer although an accepted point never reached the wire (it is counted in TotalDataPoints and
+   its sequence number is used). *)
+Lemma store_failure_drops_chunk :
+  let ops := [Write 1 [(1,1,5)]; Write 1 [(2,2,1)]; Flush] in
+  let r := urun_sf [1] (uinit (PSize 4) []) ops in
+  r_rets r = [0; 0; 0] /\ u_buf (r_state r) = [] /\ u_total (r_state r) = 2 /\ u_seq (r_state r) = 2 /\
+  chunks_pts 1 (chunks_of (r_outs r)) = [(2,2,1)] /\
+  accepted_pts 1 ops (r_rets r) = [(1,1,5); (2,2,1)].
+Proof. vm_compute. repeat split. Qed.
